@@ -288,10 +288,11 @@ def shapes(tier):
         ]
         return combos
     for nb in (0, 1, 2, 3):
-        for nvars in ((1,) if nb == 0 else (1, 2, 3, 4, 5, 7, 8, 9, 12) if nb == 1 else (2, 4, 5) if nb == 2 else (3,)):
+        for nvars in ((1,) if nb == 0 else (1, 3, 4, 5, 8, 9, 12) if nb == 1 else (2, 4, 5) if nb == 2 else (3,)):
             for por, perm, seq in itertools.product((False, True), repeat=3):
                 for timing, reset in ((False, True), (True, True), (True, False)):
                     if nb == 3 and (perm or not por or timing and reset): continue
+                    if nb == 0 and (por or perm or seq): continue
                     if nb == 2 and nvars != 4 and (por != seq): continue
                     out.append(dict(nblocks=nb, nvars=nvars, por=por, perm=perm, seq=seq, timing=timing, reset=reset,
                                     cycles=3 if (nvars in (3, 4, 5) and nb <= 2) else 2))
@@ -301,7 +302,7 @@ def shapes(tier):
 def run(tier, seed, rep):
     _load()
     sh = shapes(tier)
-    tasks = [(task_shape, dict(s, second=25, seed=seed) if tier == 'thorough' else s) for s in sh]
+    tasks = [(task_shape, dict(s, second=150, seed=seed) if tier == 'thorough' else s) for s in sh]
     # long tasks first
     tasks.sort(key=lambda t: -(t[1]['nblocks'] * 10 + t[1]['nvars']))
     rep.add_results(report.run_tasks(tasks))
